@@ -55,7 +55,8 @@ PROPS = {
     "C06": {
         "units": [("replacer", r"replace_by|make_edit|get_replaced_range|deref|get_node"), ("source", r"accept_edit"), ("fixer", r"get_replaced_range"), "rewrite", "cli_print"],
         "kani": [],
-        "decided": ["NodeMatch::replace_by: the edit covers exactly the matched node's extent",
+        "decided": ["Rewrite::compute with joinBy (unit rewrite): the result is the replacement texts of the rewriters' edits that start inside the rewritten text, in document order, separated by the joiner, an edit overlapping the previously kept one dropped; no arithmetic or index panic whatever edits the rewriters' fixes produce",
+                    "NodeMatch::replace_by: the edit covers exactly the matched node's extent",
                     "NodeMatch::make_edit: (position, position+deleted_length) == the replacer's range, text == the replacer's text",
                     "default replaced range = node start .. start + matched prefix length (<= node end)",
                     "Fixer range: default range without expansion; with expansion start <= node start and end >= node end",
